@@ -272,6 +272,30 @@ func bbMachine(rt *rapid.T, r *ev.Rec, o bbMachineOpts, c05 *c05State) (w *bbWor
 				}
 			}
 		},
+		"expelRun": func(t *rapid.T) {
+			// every remaining node votes the same expel-carrying ballot: the way an expel voteproof comes about. The expel
+			// operation may be insufficiently signed, signed by an outsider or expired: then no expel voteproof may be emitted.
+			if w.n < 3 {
+				t.Skip("expels need >= 3 nodes")
+			}
+
+			d := genBBDesc(w).Draw(t, "ballot")
+			d.Key = ""
+			d.Kind = rapid.SampledFrom([]string{"initExpel", "initExpel", "acceptExpel"}).Draw(t, "expelKind")
+			skip := rapid.IntRange(-1, w.n-1).Draw(t, "skipNode") // -1: nobody is missing
+
+			for i := 0; i < w.n; i++ {
+				if i == skip {
+					continue
+				}
+
+				d.Node = i
+
+				if _, _, err := w.vote(d); err != nil {
+					t.Fatalf("Vote error: %v", err)
+				}
+			}
+		},
 		"count": func(t *rapid.T) {
 			w.history = append(w.history, "count")
 			w.box.Count()
@@ -357,7 +381,7 @@ func TestC04(t *testing.T) {
 	r := ev.Start(t, "C04")
 	defer r.Finish()
 	r.Rule("rapid state machine over a real Ballotbox: suffrage 1..7 (local a member or not), thresholds {60,67,80,100}, heights 33..35, rounds 0..2; " +
-		"actions Vote(real IsValid ballots: honest/conflicting INIT+ACCEPT, suffrage-confirm with an INIT expel voteproof, ballots carrying expels signed fully/by one/with a foreign signer, " +
+		"actions Vote(real IsValid ballots: honest/conflicting INIT+ACCEPT, suffrage-confirm with an INIT expel voteproof, ballots carrying expels signed fully/by one/with a foreign signer/expired, " +
 		"foreign and wrong-key signers), runs of the same ballot from k nodes, Count, SetLastPointFromVoteproof, suffrage lookup found/not-found toggles, concurrent voters; " +
 		"every voteproof received on Voteproof() is judged. non-trivial = history with >=1 counted voteproof and a conflicting ballot, an expel or a concurrent phase; distinct by history")
 	r.Floor(20)
